@@ -7,6 +7,10 @@ MC  : MC_Zerv over ZervModel - the action property HigherLevelsUnchanged for eve
       (dirty, distance, pre-release, post) - in five bounded argument spaces (names / index /
       vcs / order = custom precedence orders incl. one with levels left out / tmpl = flag values
       that are templates over the pre-bump snapshot).
+      ResetLaw.tla (spec/apalache) is the same law unrolled for the default order on unbounded
+      integers: Apalache checks the action invariant (higher levels unchanged, lower levels reset
+      on a bump, nothing reset without a bump) from an arbitrary state for all override / bump
+      values; MC_ResetLawLink (TLC) shows every ResetLaw transition equals ZervOps!ProcByName.
 Gen : one REPLAY line per behaviour; the harness turns the arguments into a real argv (flag
       order shuffled twice, optional-value and = forms varied, tag in SemVer or PEP 440
       spelling), runs clap + run_version_pipeline with --output-format zerv and compares every
@@ -63,6 +67,31 @@ def run(tier):
         nontrivial += rep["nontrivial"]
         samples += rep["samples"][:2]
         os.remove(r["out_path"])
+    # unbounded: Apalache checks the reset law on ResetLaw.tla for all integers (action invariant from an
+    # arbitrary state, one step); TLC ties ResetLaw's transitions to ZervOps on small values (thorough)
+    import shutil
+    import subprocess
+    apdir = os.path.join(core.SPEC, "apalache")
+    outdir = os.path.join(core.BUILD, "apalache-out")
+    apalache = []
+    for inv in ("Law", "WF"):
+        p = subprocess.run(["timeout", "600", "apalache-mc", "check", "--length=1", "--inv=" + inv, "--out-dir=" + outdir, "ResetLaw.tla"],
+                           cwd=apdir, stdout=subprocess.PIPE, stderr=subprocess.STDOUT, text=True)
+        ok = "EXITCODE: OK" in p.stdout
+        apalache.append(dict(invariant=inv, ok=ok))
+        if not ok and "Checker has found an error" in p.stdout:
+            v.add([dict(key="C05:reset-law-design", invariant=inv, tool="apalache", output=p.stdout[-600:])])
+        elif not ok:
+            raise core.ToolError("apalache failed on ResetLaw (%s): %s" % (inv, p.stdout[-800:]))
+    shutil.rmtree(outdir, ignore_errors=True)
+    core.log("  Apalache: ResetLaw action invariant Law and inductive WF hold for all integers: %s" % apalache)
+    if tier != "quick":
+        cmd = ["java", "-XX:+UseParallelGC", "-cp", core.JAR, "-DTLA-Library=" + core.SPEC, "tlc2.TLC", "-workers", "8", "-metadir",
+               os.path.join(core.BUILD, "tlc", "c05-link.meta"), "-cleanup", "-noGenerateSpecTE", "-config", "MC_ResetLawLink.cfg", "MC_ResetLawLink.tla"]
+        p = subprocess.run(cmd, cwd=apdir, stdout=subprocess.PIPE, stderr=subprocess.STDOUT, text=True, timeout=3600)
+        if "No error has been found" not in p.stdout:
+            raise core.ToolError("ResetLaw is not linked to ZervOps: " + p.stdout[-1200:])
+        core.log("  TLC: every ResetLaw transition from a small state is ZervOps!ProcByName at that level")
     n = 20000 if tier == "quick" else 200000
     chunk = 10000
     tev = tbad = 0
@@ -89,7 +118,7 @@ def run(tier):
                     "Each runs under two flag permutations. "
                     "non-trivial = the result differs from the start version. Trace: %d random runs."
                     % (", both" if tier != "quick" else "", tev),
-               exhaustive=True, recorded_events=tev)
+               exhaustive=True, recorded_events=tev, apalache=apalache)
     return v.finish(tier, "model_checking", cov,
                     ["TLC and the CommunityModules JSON reader",
                      "ZervModel.tla (stepwise machine) and the closed-form law are two formulations tied by TLC",
